@@ -23,6 +23,7 @@ from .filter import NIL
 from .filter import TRUE
 from .filter import UNDEFINED_LITERAL
 from .filter import BooleanExpression
+from .filter import CurrentKey
 from .filter import FilterContextPath
 from .filter import FilterExpression
 from .filter import FloatLiteral
@@ -597,7 +598,9 @@ class Parser:
         )
 
     def parse_current_key(self, _: TokenStream) -> FilterExpression:
-        return CURRENT_KEY
+        if self.env.key_token == CURRENT_KEY.token:
+            return CURRENT_KEY
+        return CurrentKey(self.env.key_token)
 
     def parse_filter_context_path(self, stream: TokenStream) -> FilterExpression:
         stream.next_token()
